@@ -18,6 +18,8 @@ import (
 
 	"github.com/WuKongIM/WuKongIM/pkg/db"
 	metadb "github.com/WuKongIM/WuKongIM/pkg/db/meta"
+	"github.com/WuKongIM/WuKongIM/pkg/slot/fsm"
+	"github.com/WuKongIM/WuKongIM/pkg/slot/multiraft"
 )
 
 func init() {
@@ -354,6 +356,58 @@ func c15Spoil(g *Gen, c c15Cand) c15Cand {
 	return c
 }
 
+// one staged sub-op for a WriteBatch / FSM command; `update` receives the generator's new guess
+func c15Sub(g *Gen, mode string, id string, ty int64, prev *c15Cand, update func(c *c15Cand, deleted bool)) string {
+	kind := 0
+	switch mode {
+	case "wbt":
+		kind = g.R.Pick(40, 20, 20, 20)
+	case "fsm:u":
+		kind = 0
+	case "fsm:d":
+		kind = 2
+	case "fsm:a":
+		kind = 3
+	}
+	switch kind {
+	case 0:
+		c := c15Spoil(g, c15Gen(g, prev))
+		g.Count(mode + ":upsert")
+		update(c15Guess(prev, c), false)
+		return fmt.Sprintf("u,%s,%d,%s", id, ty, c.fields(","))
+	case 1:
+		c := c15Gen(g, prev)
+		g.Count(mode + ":create")
+		if prev == nil {
+			cc := c
+			update(&cc, false)
+		}
+		return fmt.Sprintf("c,%s,%d,%s", id, ty, c.fields(","))
+	case 2:
+		g.Count(mode + ":delete")
+		update(nil, true)
+		return fmt.Sprintf("d,%s,%d", id, ty)
+	default:
+		var ece, ele, eld uint64
+		var els int64
+		var rs uint64
+		if prev != nil {
+			ece, ele, eld, els = prev.ce, prev.le, prev.ld, prev.ls
+			rs = c15Near(g, prev.rs+uint64(g.R.Intn(3)))
+			if g.R.Chance(12) {
+				eld++
+			}
+			if rs > prev.rs {
+				cc := *prev
+				cc.rs = rs
+				update(&cc, false)
+			}
+		}
+		g.Count(mode + ":advance")
+		return fmt.Sprintf("a,%s,%d,%d,%d,%d,%d,%d,%d", id, ty, ece, ele, eld, els, rs, int64(g.R.Range(0, 500)))
+	}
+}
+
 func genC15(g *Gen) {
 	ids := []string{"a", "chan-b", "c"}
 	types := []int64{1, 2, -5}
@@ -407,7 +461,7 @@ func genC15(g *Gen) {
 					g.Count("cand:route-gen-explicit")
 				}
 			}
-			switch g.R.Pick(52, 16, 14, 8, 10) {
+			switch g.R.Pick(40, 12, 10, 6, 8, 12, 12) {
 			case 0:
 				c := c15Gen(g, prev)
 				classify(c)
@@ -466,8 +520,58 @@ func genC15(g *Gen) {
 				if g.R.Chance(70) {
 					delete(last, k)
 				}
-			default:
+			case 4:
 				g.Op("get", "%s %d", id, k.ty)
+			case 5: // compat WriteBatch: 1-3 staged upsert / create / delete / advance, one commit
+				ns := g.R.Range(1, 3)
+				var subs []string
+				for s := 0; s < ns; s++ {
+					kk := keys[g.R.Intn(nk)]
+					subs = append(subs, c15Sub(g, "wbt", kk.id, kk.ty, last[kk], func(c *c15Cand, deleted bool) {
+						if deleted {
+							delete(last, kk)
+						} else if c != nil {
+							last[kk] = c
+						}
+					}))
+				}
+				g.Op("wbt", "%s", strings.Join(subs, ";"))
+			default: // one slot-FSM command (ApplyBatch of one multiraft.Command)
+				kind := g.R.Pick(45, 15, 20, 20)
+				switch kind {
+				case 3: // create batch with 1-2 items
+					n := g.R.Range(1, 2)
+					var items []string
+					for s := 0; s < n; s++ {
+						kk := keys[g.R.Intn(nk)]
+						if kk.ty == 1 {
+							// person channels: command 59 also stages EnsurePersonDirectoryTask (person-directory
+							// tables, outside this property's model) - not driven through the FSM create path
+							g.Count("fsm:create-person-channel-skipped")
+							continue
+						}
+						c := c15Gen(g, last[kk])
+						items = append(items, fmt.Sprintf("c,%s,%d,%s", kk.id, kk.ty, c.fields(",")))
+						if last[kk] == nil {
+							cc := c
+							last[kk] = &cc
+						}
+					}
+					if len(items) == 0 {
+						g.Op("get", "%s %d", id, k.ty)
+						break
+					}
+					g.Count("fsm:create-batch")
+					g.Op("fsm", "%s", strings.Join(items, "|"))
+				default:
+					g.Op("fsm", "%s", c15Sub(g, []string{"fsm:u", "fsm:d", "fsm:a"}[kind], k.id, k.ty, prev, func(c *c15Cand, deleted bool) {
+						if deleted {
+							delete(last, k)
+						} else if c != nil {
+							last[k] = c
+						}
+					}))
+				}
 			}
 		}
 	}
@@ -483,7 +587,10 @@ var (
 )
 
 type c15Runner struct {
-	hs metadb.HashSlot
+	hs  metadb.HashSlot
+	cdb *metadb.DB
+	sm  multiraft.StateMachine
+	idx uint64
 }
 
 func newC15Runner() *c15Runner {
@@ -499,7 +606,15 @@ func newC15Runner() *c15Runner {
 	}
 	c15Case++
 	// every case gets its own hash slot: rows of different cases never meet
-	return &c15Runner{hs: metadb.HashSlot(c15Case % 60000)}
+	r := &c15Runner{hs: metadb.HashSlot(c15Case % 60000)}
+	r.cdb = metadb.VerifCompatDB(c15Store.Meta())
+	sm, err := fsm.NewStateMachineWithHashSlots(r.cdb, 1, []uint16{uint16(r.hs)})
+	if err != nil {
+		panic(err)
+	}
+	r.sm = sm
+	r.idx = uint64(c15Case) * 1000
+	return r
 }
 
 func (r *c15Runner) Close() {}
@@ -561,6 +676,38 @@ func c15ParseCand(id string, ty int64, f []string) (metadb.ChannelRuntimeMeta, b
 	}
 	m.WriteFenceVersion, m.WriteFenceReason, m.WriteFenceUntilMS, m.DirectoryGeneration = u(f[13]), b(f[14]), i(f[15]), u(f[16])
 	return m, ok && ok1 && ok2
+}
+
+type c15Key struct {
+	id string
+	ty int64
+}
+
+func c15AddKey(keys []c15Key, id string, ty int64) []c15Key {
+	for _, k := range keys {
+		if k.id == id && k.ty == ty {
+			return keys
+		}
+	}
+	return append(keys, c15Key{id, ty})
+}
+
+func c15ParseAdv(id string, ty int64, f []string) (metadb.ChannelRetentionAdvance, bool) {
+	var req metadb.ChannelRetentionAdvance
+	if len(f) != 6 {
+		return req, false
+	}
+	ece, e1 := strconv.ParseUint(f[0], 10, 64)
+	ele, e2 := strconv.ParseUint(f[1], 10, 64)
+	eld, e3 := strconv.ParseUint(f[2], 10, 64)
+	els, e4 := strconv.ParseInt(f[3], 10, 64)
+	rs, e5 := strconv.ParseUint(f[4], 10, 64)
+	ra, e6 := strconv.ParseInt(f[5], 10, 64)
+	if e1 != nil || e2 != nil || e3 != nil || e4 != nil || e5 != nil || e6 != nil {
+		return req, false
+	}
+	return metadb.ChannelRetentionAdvance{ChannelID: id, ChannelType: ty, ExpectedChannelEpoch: ece, ExpectedLeaderEpoch: ele,
+		ExpectedLeader: eld, ExpectedLeaseUntilMS: els, RetentionThroughSeq: rs, RetentionUpdatedAtMS: ra}, true
 }
 
 func c15Row(m metadb.ChannelRuntimeMeta, ok bool) string {
@@ -706,6 +853,189 @@ func (r *c15Runner) Step(op string) string {
 			cs = "-"
 		}
 		out := flags.String() + " " + commit + " " + cs
+		for _, k := range keys {
+			out += " " + k.id + "/" + strconv.FormatInt(k.ty, 10) + "=" + r.get(k.id, k.ty)
+		}
+		return out
+	case "wbt":
+		if len(f) != 2 {
+			return "bad-op"
+		}
+		wb := r.cdb.NewWriteBatch()
+		defer wb.Close()
+		var flags, created strings.Builder
+		var results []*metadb.ChannelRuntimeMetaCreateResult
+		var keys []c15Key
+		for _, sub := range strings.Split(f[1], ";") {
+			p := strings.Split(sub, ",")
+			if len(p) < 3 {
+				return "bad-op"
+			}
+			ty, err := strconv.ParseInt(p[2], 10, 64)
+			if err != nil {
+				return "bad-op"
+			}
+			keys = c15AddKey(keys, p[1], ty)
+			id := p[1]
+			if id == "-" {
+				id = ""
+			}
+			var serr error
+			switch p[0] {
+			case "u", "c":
+				m, ok := c15ParseCand(p[1], ty, p[3:])
+				if !ok {
+					return "bad-op"
+				}
+				if p[0] == "u" {
+					serr = wb.UpsertChannelRuntimeMeta(uint16(r.hs), m)
+				} else {
+					var res *metadb.ChannelRuntimeMetaCreateResult
+					res, serr = wb.CreateChannelRuntimeMeta(uint16(r.hs), m)
+					if serr == nil {
+						results = append(results, res)
+					}
+				}
+			case "d":
+				if len(p) != 3 {
+					return "bad-op"
+				}
+				serr = wb.DeleteChannelRuntimeMeta(uint16(r.hs), id, ty)
+			case "a":
+				req, ok := c15ParseAdv(id, ty, p[3:])
+				if !ok {
+					return "bad-op"
+				}
+				serr = wb.AdvanceChannelRetentionThroughSeq(uint16(r.hs), req)
+			default:
+				return "bad-op"
+			}
+			if serr != nil {
+				flags.WriteByte('i')
+			} else {
+				flags.WriteByte('s')
+			}
+		}
+		err := wb.Commit()
+		if err == nil {
+			for _, res := range results {
+				if res.Created {
+					created.WriteByte('1')
+				} else {
+					created.WriteByte('0')
+				}
+			}
+		}
+		cs := created.String()
+		if cs == "" {
+			cs = "-"
+		}
+		out := flags.String() + " " + c15Err2(err) + " " + cs
+		for _, k := range keys {
+			out += " " + k.id + "/" + strconv.FormatInt(k.ty, 10) + "=" + r.get(k.id, k.ty)
+		}
+		return out
+	case "fsm":
+		if len(f) != 2 {
+			return "bad-op"
+		}
+		var keys []c15Key
+		var data []byte
+		isCreate := false
+		subs := strings.Split(f[1], "|")
+		p0 := strings.Split(subs[0], ",")
+		if len(p0) < 3 {
+			return "bad-op"
+		}
+		switch p0[0] {
+		case "c":
+			isCreate = true
+			var items []fsm.CreateChannelRuntimeMetaBatchItem
+			for _, sub := range subs {
+				p := strings.Split(sub, ",")
+				if len(p) != 20 || p[0] != "c" {
+					return "bad-op"
+				}
+				ty, err := strconv.ParseInt(p[2], 10, 64)
+				if err != nil {
+					return "bad-op"
+				}
+				m, ok := c15ParseCand(p[1], ty, p[3:])
+				if !ok {
+					return "bad-op"
+				}
+				keys = c15AddKey(keys, p[1], ty)
+				items = append(items, fsm.CreateChannelRuntimeMetaBatchItem{HashSlot: uint16(r.hs), Meta: m})
+			}
+			var err error
+			data, err = fsm.EncodeCreateChannelRuntimeMetaBatchCommandChecked(items)
+			if err != nil {
+				out := "encerr -"
+				for _, k := range keys {
+					out += " " + k.id + "/" + strconv.FormatInt(k.ty, 10) + "=" + r.get(k.id, k.ty)
+				}
+				return out
+			}
+		default:
+			if len(subs) != 1 {
+				return "bad-op"
+			}
+			ty, err := strconv.ParseInt(p0[2], 10, 64)
+			if err != nil {
+				return "bad-op"
+			}
+			keys = c15AddKey(keys, p0[1], ty)
+			id := p0[1]
+			if id == "-" {
+				id = ""
+			}
+			switch p0[0] {
+			case "u":
+				m, ok := c15ParseCand(p0[1], ty, p0[3:])
+				if !ok {
+					return "bad-op"
+				}
+				data = fsm.EncodeUpsertChannelRuntimeMetaCommand(m)
+			case "d":
+				if len(p0) != 3 {
+					return "bad-op"
+				}
+				data = fsm.EncodeDeleteChannelRuntimeMetaCommand(id, ty)
+			case "a":
+				req, ok := c15ParseAdv(id, ty, p0[3:])
+				if !ok {
+					return "bad-op"
+				}
+				data = fsm.EncodeAdvanceChannelRetentionThroughSeqCommand(req)
+			default:
+				return "bad-op"
+			}
+		}
+		r.idx++
+		result, err := r.sm.Apply(ctx, multiraft.Command{SlotID: 1, HashSlot: uint16(r.hs), Index: r.idx, Term: 1, Data: data})
+		results := [][]byte{result}
+		res, cs := c15Err2(err), "-"
+		if err == nil {
+			res = string(results[0])
+			if isCreate {
+				res = "ok"
+				decoded, derr := fsm.DecodeCreateChannelRuntimeMetaBatchResult(results[0])
+				if derr != nil {
+					res = "raw:" + strings.ReplaceAll(string(results[0]), " ", "_")
+				} else {
+					var sb strings.Builder
+					for _, d := range decoded {
+						if d.Created {
+							sb.WriteByte('1')
+						} else {
+							sb.WriteByte('0')
+						}
+					}
+					cs = sb.String()
+				}
+			}
+		}
+		out := res + " " + cs
 		for _, k := range keys {
 			out += " " + k.id + "/" + strconv.FormatInt(k.ty, 10) + "=" + r.get(k.id, k.ty)
 		}
